@@ -457,3 +457,7 @@ M('C18', 'sign-with-primary-material', PGP, "        _sig = self._key.sign(sigda
 M('C18', 'recipient-shortid', PGP, "        pkesk.encrypter = bytearray(binascii.unhexlify(self.fingerprint.keyid.encode('latin-1')))", "        pkesk.encrypter = bytearray(binascii.unhexlify(self.fingerprint.shortid.encode('latin-1')))", 'C18.7')
 M('C18', 'recipient-raw-ascii-id', PGP, "        pkesk.encrypter = bytearray(binascii.unhexlify(self.fingerprint.keyid.encode('latin-1')))", "        pkesk.encrypter = bytearray(self.fingerprint.keyid.encode('latin-1'))", 'C18.7')
 M('C18', 'session-key-to-primary-material', PGP, "        pkesk.encrypt_sk(self._key, cipher_algo, sessionkey)", "        target = self.parent._key if self.parent is not None else self._key\n        pkesk.encrypt_sk(target, cipher_algo, sessionkey)", 'C18.7')
+T('C18', 'twin-pubkey-class-via-local', PK, "        pk = PubKeyV4() if not isinstance(self, PrivSubKeyV4) else PubSubKeyV4()\n", "        klass = PubSubKeyV4 if isinstance(self, PrivSubKeyV4) else PubKeyV4\n        pk = klass()\n")
+M('C18', 'pubkey-class-via-local-keeps-private-subkey', PK, "        pk = PubKeyV4() if not isinstance(self, PrivSubKeyV4) else PubSubKeyV4()\n", "        klass = PrivSubKeyV4 if isinstance(self, PrivSubKeyV4) else PubKeyV4\n        pk = klass()\n", 'C18.6')
+T('C18', 'twin-keyid-of-plain-text', TY, "        return self[-16:]", "        return str(self)[-16:]",
+  more=[(PGP, "        if self._key:\n            return self._key.fingerprint\n", "        return self._key.fingerprint if self._key else None\n")])
